@@ -29,6 +29,7 @@ UNIT_PROPS = {
     "cob_evaluate": ["C06"],
     "refs_text": ["C20"],
     "cob_thread": ["C07"],
+    "fetch_stage": ["C01"],
     "fetch_validate": ["C01"],
     "service_inventory": ["C11"],
 }
@@ -68,11 +69,11 @@ PROPS = {
         "not_decided": "Round-trip direction decode(enc(v)) == Ok(v) (that every encoding is accepted) is not proved -- the quickcheck tests sample it; it would need a success condition per decoder. Alias, UserAgent (validated strings) and OnionAddrV3 (cyphernet) are opaque leaves with assumed Encode/Decode contracts; `Decode for String` is verified relative to the assumed contract of String::from_utf8 (Ok only for the UTF-8 encoding of the result), `Encode for &str/String` is an assumed leaf; Refs/SignedRefs, git::Url, VarInt/frames (C14) are outside the unit; Read::chain (used by the repaired NodeAnnouncement::decode) is represented by a stand-in. Assumed: byteorder read/write_uN are big-endian, io::Read/Write stream models, Vec::with_capacity(n).capacity() == n, bloomy's filter is its byte array, `enum as u16` yields the discriminant, InfoType::try_from (4-line match, see unit), byte counters do not overflow usize.",
     },
     "C01": {
-        "vx": ["fetch_run", "fetch_validate", "fetch_ancestry", "refs_verify"],
+        "vx": ["fetch_run", "fetch_validate", "fetch_ancestry", "refs_verify", "fetch_stage"],
         "kx": [],
         "technique": "Verus sink precondition on the extracted FetchState::run: repository::update may only see tips of namespaces that the validation oracle accepted (loop invariant over the validation loop, prune contract); Verus contract on SignedRefs::verify (signature by the namespace key over the canonical text, identity root names this repository)",
-        "explanation": "FetchState::run (the whole validation loop with all four DelegateStatus arms, continue/early-return paths) is verified: at the single call that writes to the git repository, every non-blocked remote among the advertised signed-refs remotes that still has tips was reported valid by sigrefs::validate and its advertised rad/sigrefs is neither behind nor diverged from the stored one (delegate or not); FetchState::prune is proved to remove exactly that remote's tips/ids/sigrefs. Unit fetch_validate proves what 'reported valid' means: <Cached as ValidateRepository>::validate_remote (both loops) returns no findings only if the fetched namespace contains refs/rad/sigrefs and otherwise exactly the signed refs, each at the signed oid; sigrefs::validate returns None exactly then. SignedRefs::verify/verified accept only when the ed25519 check of the claimed key over Refs::canonical succeeds and refs/rad/root resolves to an identity document whose blob id is this repository's id.",
-        "not_decided": "DataRefs::prepare_updates is a stand-in; repository::direct is under contract (unit fetch_ancestry: with Policy::Allow every successful outcome is an applied update, also for a rewound or diverged target) but 'Accepted' is tied to the libgit2 write only by inspection; the link between unit fetch_run's ghost `validated(r)` and unit fetch_validate's `matches_signed` is by name only (two units); Refdb::references_of is assumed to enumerate the namespace's refs exactly once; the iterator chains computing the delegate key set are stand-ins; the protocol stages (network, in-memory refdb) are arbitrary; that a namespace left out of `tips` is byte-for-byte untouched by libgit2 is outside any contract.",
+        "explanation": "FetchState::run (the whole validation loop with all four DelegateStatus arms, continue/early-return paths) is verified: at the single call that writes to the git repository, every non-blocked remote among the advertised signed-refs remotes that still has tips was reported valid by sigrefs::validate and its advertised rad/sigrefs is neither behind nor diverged from the stored one (delegate or not); FetchState::prune is proved to remove exactly that remote's tips/ids/sigrefs. Unit fetch_validate proves what 'reported valid' means: <Cached as ValidateRepository>::validate_remote (both loops) returns no findings only if the fetched namespace contains refs/rad/sigrefs and otherwise exactly the signed refs, each at the signed oid; sigrefs::validate returns None exactly then. Unit fetch_stage: <DataRefs as ProtocolStage>::prepare_updates (three nested loops) queues, for every fetched remote, a direct update to the signed target for every signed ref and a prune -- with its current target -- for every other existing reference of THAT remote's namespace outside refs/rad. SignedRefs::verify/verified accept only when the ed25519 check of the claimed key over Refs::canonical succeeds and refs/rad/root resolves to an identity document whose blob id is this repository's id.",
+        "not_decided": "In unit fetch_stage the reference-name constructions (Qualified/Namespaced of git-ref-format), Updates::add (BTreeMap entry API), Repository::references_of and the iteration orders are stand-ins with assumed contracts, remotes and reference names are assumed unique (map keys); repository::direct is under contract (unit fetch_ancestry: with Policy::Allow every successful outcome is an applied update, also for a rewound or diverged target) but 'Accepted' is tied to the libgit2 write only by inspection; the link between unit fetch_run's ghost `validated(r)` and unit fetch_validate's `matches_signed` is by name only (two units); Refdb::references_of is assumed to enumerate the namespace's refs exactly once; the iterator chains computing the delegate key set are stand-ins; the protocol stages (network, in-memory refdb) are arbitrary; that a namespace left out of `tips` is byte-for-byte untouched by libgit2 is outside any contract.",
     },
     "C02": {
         "vx": ["fetch_run", "fetch_ancestry"],
